@@ -36,6 +36,7 @@ class Config:
     npint: bool = False  # ids / times stored and passed as numpy integers (as a GUI does)
     rename: tuple = ()  # (old_key, new_key) pairs of annotator features renamed after build
     seg_dtype: str = "int64"  # dtype of the label array (napari layers use all of these)
+    int_axis0: bool = False  # without segmentation: the first position axis holds Python ints
 
     def to_json(self):
         d = asdict(self)
@@ -114,6 +115,7 @@ def random_config(rng: random.Random, *, seg=None, ndim=None, allow3d_shape=True
         # overlap those of their neighbours
         thick=(nd == 4 and sg and rng.random() < 0.5),
         npint=rng.random() < 0.2,
+        int_axis0=(not sg and rng.random() < 0.25),
         rename=tuple(r for r in (("iou", "overlap"), ("area", "size"))
                      if sg and rng.random() < 0.15 and (r[0] != "iou" or "iou" in extra)),
     )
@@ -313,6 +315,8 @@ def build_graph(cfg: Config, forest: Forest, rng: random.Random, with_ids: bool,
         attrs: dict[str, Any] = {time_key: npi(t)}
         if not cfg.seg:
             pos = [round(rng.uniform(0, s - 1), 3) for s in shape]
+            if cfg.int_axis0:
+                pos[0] = int(pos[0])  # e.g. a z-plane index next to sub-pixel y / x
             if cfg.pos_mode == "axes":
                 for a, p in zip(axes, pos):
                     attrs[a] = p
